@@ -341,11 +341,15 @@ def with_lane(judge):
         st2, info2 = judge(rec, "r2")
         if st2 == BAD:
             return BAD, "whole-array routine on the lane: " + str(info2)
-        if st2 == OK:
-            a, _ = need_val(rec, "r"); b, _ = need_val(rec, "r2")
-            # both within tol of the same exact value: |a-b| <= 2 tol is implied; bit equality is recorded
-            return OK, max(info, info2) if a == b or True else 0.0
-        return st, info
+        worst = max(info, info2) if st2 == OK else info
+        if "r3" in rec:
+            # the whole-array routine applied to the lane as it lies in the array (strided / reversed view)
+            st3, info3 = judge(rec, "r3")
+            if st3 == BAD:
+                return BAD, "whole-array routine on the lane view: " + str(info3)
+            if st3 == OK:
+                worst = max(worst, info3)
+        return OK, worst
     return j
 
 
@@ -612,7 +616,28 @@ def ent_terms(rec, kind):
     return special, terms, sum(abs(dec(F(x))) for x in p if math.isfinite(x))
 
 
+def ratio_out_of_range(rec):
+    """known-finding predicate F9: some contributing pair has a quotient q_i/p_i that overflows or underflows to
+    zero in the element type (kl_divergence takes the logarithm of the rounded quotient)"""
+    ty = rec["ty"]
+    p = vals(rec["p"], ty); q = vals(rec["q"], ty)
+    big = float(FMAX[ty]) * 2 if ty == "f32" else None
+    for pi, qi in zip(p, q):
+        if pi > 0 and qi > 0 and math.isfinite(pi) and math.isfinite(qi):
+            r = F(qi) / F(pi)
+            if r >= FMAX[ty] * 2 or r <= ETA[ty] / 2:
+                return True
+    return False
+
+
 def j_entropy_like(rec, kind, key="r"):
+    st, info = j_entropy_like_inner(rec, kind, key)
+    if st == BAD and kind == "kl" and ratio_out_of_range(rec) and not str(info).startswith("[class:"):
+        info = "[class:F9] " + str(info)
+    return st, info
+
+
+def j_entropy_like_inner(rec, kind, key="r"):
     ty = rec["ty"]; u = U[ty]
     got, e = need_val(rec, key)
     if e: return BAD, e
@@ -625,7 +650,7 @@ def j_entropy_like(rec, kind, key="r"):
         return (OK, 0.0) if got == float("inf") else (BAD, "q = 0 where p > 0 must give +inf, got %r" % got)
     n = len(terms)
     exact = -sum(terms)
-    tol = D(SAFETY) * (D(n + 8) * dec(u) * sum(abs(t) for t in terms) + 4 * dec(u) * sp) + n * dec(ETA[ty])
+    tol = D(SAFETY) * (D(n + 8) * dec(u) * sum(abs(t) for t in terms) + 4 * dec(u) * sp) + 4 * n * dec(ETA[ty])
     if not math.isfinite(got):
         return BAD, "%s = %r, exact %s" % (kind, got, exact)
     err = abs(D(got) - exact)
@@ -663,7 +688,7 @@ def j_entropy_identity(rec):
     n = len(p)
     du = dec(u)
     def tol(ts):
-        return D(SAFETY) * (D(n + 8) * du * sum(abs(t) for t in ts) + 4 * du * sp) + n * dec(ETA[ty])
+        return D(SAFETY) * (D(n + 8) * du * sum(abs(t) for t in ts) + 4 * du * sp) + 4 * n * dec(ETA[ty])
     t_all = tol(th) + tol(tc) + tol(tk)
     d = abs(D(c) - D(h) - D(k))
     if d > t_all:
@@ -803,8 +828,13 @@ def judge_range(args):
                 s[1] += 1
             else:
                 s[2] += 1
-                if op in PROP_OPS.get(prop, ()) and len(viol) < 12:
-                    viol.append({"op": op, "sec": rec.get("sec"), "k": rec.get("k"), "what": info, "record": summarize_record(rec)})
+                cls = None
+                if isinstance(info, str) and info.startswith("[class:"):
+                    cls = info[7:info.index("]")]
+                    s2 = stats.setdefault("_class_" + cls, [0, 0, 0, 0.0])
+                    s2[2] += 1
+                if op in PROP_OPS.get(prop, ()) and (len(viol) < 12 or (cls and sum(1 for v in viol if v.get("class") == cls) < 3)):
+                    viol.append({"op": op, "sec": rec.get("sec"), "k": rec.get("k"), "what": info, "class": cls, "record": summarize_record(rec)})
     return stats, viol, bitexact, lane_pairs
 
 
@@ -878,11 +908,16 @@ def run_stage(root, harness, binpath, prop, tier, seed, profile, ncpu, watchdog,
         if v.get("oracle_error"):
             summ["harness_errors"].append(v["what"])
             continue
-        summ["violations"].append({"prop": prop, "monitor": "exact_oracle:" + v["op"], "class": None, "section": v["sec"], "k": v["k"], "detail": {"what": v["what"], "record": v["record"]}})
+        summ["violations"].append({"prop": prop, "monitor": "exact_oracle:" + v["op"], "class": v.get("class"), "section": v["sec"], "k": v["k"], "detail": {"what": v["what"], "record": v["record"]}})
     nbad = sum(v[2] for op, v in stats.items() if op in relevant)
+    nclassed = 0
+    for key, v in stats.items():
+        if key.startswith("_class_"):
+            summ["violations_by_class"][key[7:]] = summ["violations_by_class"].get(key[7:], 0) + v[2]
+            nclassed += v[2]
     summ["violations_total"] += nbad
-    if nbad:
-        summ["violations_by_class"]["unclassified"] = summ["violations_by_class"].get("unclassified", 0) + nbad
+    if nbad - nclassed > 0:
+        summ["violations_by_class"]["unclassified"] = summ["violations_by_class"].get("unclassified", 0) + nbad - nclassed
     return summ
 
 
